@@ -42,6 +42,8 @@ def driver_lines(programs, env="p", opts=""):
             o.append("umb=" + ";".join(f"{k}:{c}" for k, c in p["umb"]))
         if p.get("attach"):
             o.append("attach=1")
+        if p.get("cont"):
+            o.append("cont=1")
         if p.get("stdin") is not None:
             o.append("stdin=" + "/".join(".".join(str(ord(ch)) for ch in c) if c else "-" for c in p["stdin"]))
         lines.append(f"run {','.join(o)} {enc(p['text'])}")
@@ -65,13 +67,13 @@ Definition run_fuel := N.to_nat 30000.
 Definition ends_special (l : list outcome) : bool := match rev l with (OPanic | OFuel) :: _ => true | _ => false end.
 Definition prepare (st : state) (inj : list (N * text)) (att : bool) (input : list text) : state :=
   State (mods st) (cur st) (gensyms st) (out st) input (att || match inj with [] => false | _ => true end) [] inj 0.
-Definition chk (st0 : state) (c : text * list (N * text) * bool * list text * (list outcome * text * N)) : bool :=
-  let '(prog, inj, att, input, (exp, eout, epolls)) := c in
-  let '(st, os) := run_text run_fuel (prepare st0 inj att input) prog in
+Definition chk (st0 : state) (c : text * list (N * text) * (bool * bool) * list text * (list outcome * text * N)) : bool :=
+  let '(prog, inj, (att, cont), input, (exp, eout, epolls)) := c in
+  let '(st, os) := run_text_cont cont run_fuel (prepare st0 inj att input) prog in
   outcomes_match mf [] os exp && (ends_special exp || (text_eqb (out st) eout && (polls st =? epolls))).
-Definition chk_nopolls (st0 : state) (c : text * list (N * text) * bool * list text * (list outcome * text * N)) : bool :=
-  let '(prog, inj, att, input, (exp, eout, epolls)) := c in
-  let '(st, os) := run_text run_fuel (prepare st0 inj att input) prog in
+Definition chk_nopolls (st0 : state) (c : text * list (N * text) * (bool * bool) * list text * (list outcome * text * N)) : bool :=
+  let '(prog, inj, (att, cont), input, (exp, eout, epolls)) := c in
+  let '(st, os) := run_text_cont cont run_fuel (prepare st0 inj att input) prog in
   outcomes_match mf [] os exp && (ends_special exp || text_eqb (out st) eout).
 """
 
@@ -87,12 +89,12 @@ def correspond(name, programs, env="p", opts="", shard_size=40, timeout=6.0, pro
             continue
         inj = "[" + "; ".join(f"({k}, {coq_text(c)})" for k, c in p.get("umb", [])) + "]"
         inp = "[" + "; ".join(coq_text(c) for c in (p.get("stdin") or [])) + "]"
-        terms.append(f"({coq_text(p['text'])}, {inj}, {'true' if p.get('attach') else 'false'}, {inp}, {t})")
+        terms.append(f"({coq_text(p['text'])}, {inj}, ({'true' if p.get('attach') else 'false'}, {'true' if p.get('cont') else 'false'}), {inp}, {t})")
         idx.append(i)
     st = state_expr or STATE_OF[env]
     chk = "chk" if compare_polls else "chk_nopolls"
     bad = coq_check_shards(name, PREAMBLE, terms, f"{chk} {st}", shard_size=shard_size, timeout=1200,
-                           case_type="text * list (N * text) * bool * list text * (list outcome * text * N)")
+                           case_type="text * list (N * text) * (bool * bool) * list text * (list outcome * text * N)")
     return answers, parsed, [idx[b] for b in bad]
 
 def model_outcome(program, env="p", state_expr=None):
@@ -101,5 +103,5 @@ def model_outcome(program, env="p", state_expr=None):
     st = state_expr or STATE_OF[env]
     inj = "[" + "; ".join(f"({k}, {coq_text(c)})" for k, c in p.get("umb", [])) + "]"
     inp = "[" + "; ".join(coq_text(c) for c in (p.get("stdin") or [])) + "]"
-    src = PREAMBLE + f"Eval vm_compute in (let '(st, os) := run_text run_fuel (prepare {st} {inj} {'true' if p.get('attach') else 'false'} {inp}) {coq_text(p['text'])} in (os, out st, polls st)).\n"
+    src = PREAMBLE + f"Eval vm_compute in (let '(st, os) := run_text_cont {'true' if p.get('cont') else 'false'} run_fuel (prepare {st} {inj} {'true' if p.get('attach') else 'false'} {inp}) {coq_text(p['text'])} in (os, out st, polls st)).\n"
     return coq_eval("model_one", src, timeout=600)[:6000]
